@@ -1,4 +1,5 @@
 import PqModel.PageLoad
+import PqModel.PageStep
 
 /-! # C13 — Corruption inside a checksummed page is reported, never returned as data
 
@@ -14,7 +15,7 @@ verifies (F4: the dictionary loader did not) — is gone; its negation is kept a
 of the old code (`PageLoad.beforeFix`) under `_before_fix` names, as regression facts.
 Bursts wider than 32 bits are detected with probability 1 - 2^-32 only: not claimed. -/
 namespace PqModel.Props.C13
-open PqModel.Crc PqModel.PageLoad
+open PqModel.Crc PqModel.PageLoad PqModel.PageStep
 
 /-! ## CRC-32 on bytes -/
 
@@ -126,6 +127,166 @@ theorem readAt_detects_dictionary (c : Chunk) (k : Nat) (s d : Stored)
   have := loadStored_corrupted current .lazyDictionary rfl d hc
   simp [loadStored, load] at this
   split at this <;> simp_all
+
+/-! ## The reader state around the loader: skip counter, desync flag, retries -/
+
+/-- **verify_independent_of_seek_state**: whether a page is rejected as corrupted does not depend on
+    the seek state of the reader — not on `skip` (rows still to drop), `desync`, or `index`. -/
+theorem verify_independent_of_seek_state (st : RState) (skip' index' : Nat) (desync' : Bool)
+    (h : Header) (numRows : Nat) (stream : Bytes) :
+    (pageStep { st with skip := skip', index := index', desync := desync' } h numRows stream).2 = .failed .corrupted ↔
+    (pageStep st h numRows stream).2 = .failed .corrupted := by
+  rw [pageStep_corrupted_iff, pageStep_corrupted_iff]
+
+/-- a page that is only decoded to be counted and dropped on the way to the row sought is verified
+    like any other: in whatever state, a corrupted data page fails the step with `corrupted` and
+    sets `desync` -/
+theorem skipped_page_is_verified (st : RState) (s : Stored) (numRows : Nat) (hk : s.hdr.kind ≠ .dictionary)
+    (hc : Corrupted s) :
+    pageStep st s.hdr numRows s.body = ({ st with desync := true }, .failed .corrupted) := by
+  have hr := corrupted_readPage s hc
+  unfold pageStep
+  simp [hk, hr]
+
+/-- the hypotheses are satisfiable with `skip` beyond the page: the page would have been dropped -/
+example : pageStep { skip := 1000, desync := false, index := 3, dictionary := none }
+    (writeHeader .dataV2 [1, 2, 3, 4]) 10 [1, 2, 3, 5] =
+    ({ skip := 1000, desync := true, index := 3, dictionary := none }, .failed .corrupted) := by
+  decide +kernel
+
+/-- **decode_sees_verified_bytes**: whatever the decoder / decompressor is given (for a page that is
+    returned, dropped while skipping, or a dictionary) is exactly the first `CompressedPageSize` bytes
+    of the stream — the bytes whose CRC-32 was compared with the header's when it carries one. No
+    second read, no other buffer. -/
+theorem decode_sees_verified_bytes (st : RState) (h : Header) (numRows : Nat) (stream b : Bytes)
+    (hd : (pageStep st h numRows stream).2.decoded = some b) :
+    b = stream.take h.compressedSize ∧ (h.crc ≠ 0#32 → crc32 b = h.crc) := by
+  unfold pageStep at hd
+  split at hd
+  · simp [Handed.decoded] at hd
+  · cases hr : readPage h stream with
+    | error e => simp [hr, Handed.decoded] at hd
+    | ok data =>
+      simp only [hr] at hd
+      have := afterLoad_decoded st h numRows data b hd
+      subst this
+      exact readPage_ok_bytes h stream b hr
+
+example : (pageStep { skip := 2, desync := false, index := 0, dictionary := none }
+    (writeHeader .dataV2 [1, 2, 3, 4]) 10 [1, 2, 3, 4, 9, 9]).2.decoded = some [1, 2, 3, 4] := by
+  decide +kernel
+
+/-- a failed step raises `desync` (so the next `SeekToRow` repositions the stream), a successful one
+    leaves it alone -/
+theorem failed_read_sets_desync (st : RState) (h : Header) (numRows : Nat) (stream : Bytes) (e : Err)
+    (hf : (pageStep st h numRows stream).2 = .failed e) : (pageStep st h numRows stream).1.desync = true := by
+  unfold pageStep at hf ⊢
+  by_cases hd : h.kind = .dictionary ∧ st.dictionary.isSome
+  · simp [hd] at hf
+  · simp only [hd, if_false] at hf ⊢
+    cases hr : readPage h stream with
+    | error e' => rfl
+    | ok data =>
+      simp only [hr] at hf
+      exact absurd hf (afterLoad_not_failed st h numRows data e)
+
+/-- the seeded slip "compare the checksum only when `f.skip == 0`" (seeded/C13-a) on its mirror:
+    a corrupted page met while skipping is decoded unverified -/
+theorem skip_guarded_variant_decodes_unverified :
+    (skipGuardedStep { skip := 1000, desync := false, index := 3, dictionary := none }
+      (writeHeader .dataV2 [1, 2, 3, 4]) 10 [1, 2, 3, 5]).2 = .dropped [1, 2, 3, 5] ∧
+    (writeHeader .dataV2 [1, 2, 3, 4]).crc ≠ 0#32 ∧ crc32 [1, 2, 3, 5] ≠ (writeHeader .dataV2 [1, 2, 3, 4]).crc := by
+  decide +kernel
+
+/-- `Seek.Chunk.bad` of a stored chunk contains every page corrupted in the sense of this property,
+    and no intact one -/
+theorem corrupted_page_is_bad (c : Chunk) (rows : List Nat) (q : Nat) (s : Stored)
+    (hq : c.pages[q]? = some s) (hc : Corrupted s) : q ∈ (seekChunk c rows).bad :=
+  (mem_badOf c.pages q).mpr ⟨s, hq, corrupted_readPage s hc⟩
+
+theorem intact_page_is_not_bad (c : Chunk) (rows : List Nat) (q : Nat) (s : Stored)
+    (hq : c.pages[q]? = some s) (hi : Intact s) : q ∉ (seekChunk c rows).bad := by
+  intro hb
+  obtain ⟨t, h1, h2⟩ := (mem_badOf c.pages q).mp hb
+  rw [hq] at h1
+  cases h1
+  rw [readPage_intact s.hdr s.body hi.1 hi.2] at h2
+  cases h2
+
+/-- **corrupted_stays_reported** (with an intervening seek). Data page `q` of a stored chunk is
+    corrupted (burst ≤ 32 bits, header CRC ≠ 0). After ANY history of seeks / reads / lazy index
+    loads on the repaired reader (`Seek.stepFixed`) — in particular one in which a read of page `q`
+    already failed — a seek to any row `k` of page `q` succeeds and the next read reports the
+    corruption again: it never returns rows. `rows` are the row counts of the data pages. -/
+theorem corrupted_stays_reported (c : Chunk) (rows : List Nat) (hpos : ∀ r ∈ rows, 0 < r)
+    (q : Nat) (s : Stored) (hq : c.pages[q]? = some s) (hc : Corrupted s)
+    (hasIndex : Bool) (history : List Seek.Op) (k : Nat)
+    (hk1 : Seek.firstRow rows q ≤ k) (hk2 : k < Seek.firstRow rows (q + 1)) :
+    let st := reach (seekChunk c rows) hasIndex history
+    (Seek.seekFixed (seekChunk c rows) st k).2 = .ok ∧
+    (Seek.readPage rows (seekChunk c rows).bad (Seek.seekFixed (seekChunk c rows) st k).1).2 = .corrupt := by
+  intro st
+  have hbad := corrupted_page_is_bad c rows q s hq hc
+  have hinv : Seek.SInv (seekChunk c rows) st := reach_inv (seekChunk c rows) hpos hasIndex history
+  have htot : k < rows.sum := Nat.lt_of_lt_of_le hk2 (Seek.firstRow_le_sum rows (q + 1))
+  obtain ⟨hinv', hseek⟩ := Seek.seekFixed_spec (seekChunk c rows) st k hinv
+  rcases hseek with ⟨hok, hlost, hnext⟩ | ⟨_, _, hgt⟩
+  · refine ⟨hok, ?_⟩
+    have hspec := Seek.stepFixed_spec (seekChunk c rows) hpos _ .readPage hinv'
+    rw [Seek.npos_of_lost_false _ _ hlost, hnext] at hspec
+    have htarget : Seek.target rows k = q := Seek.target_unique rows k q htot hk1 hk2
+    simp only [Seek.SpecOK, Seek.stepFixed] at hspec
+    show (Seek.readPage rows (badOf c.pages) _).2 = .corrupt
+    change (match (Seek.readPage rows (badOf c.pages) (Seek.seekFixed (seekChunk c rows) st k).1).2 with
+      | .corrupt => _ | .eof => _ | .page p st len => _ | _ => False) at hspec
+    cases hout : (Seek.readPage rows (badOf c.pages) (Seek.seekFixed (seekChunk c rows) st k).1).2 with
+    | corrupt => rfl
+    | eof =>
+      rw [hout] at hspec
+      have : Seek.total (seekChunk c rows) ≤ k := hspec.1
+      simp [Seek.total, seekChunk] at this
+      omega
+    | page p st' len =>
+      rw [hout] at hspec
+      obtain ⟨_, hp, hnb, _⟩ := hspec
+      exfalso
+      apply hnb
+      have : p = q := by rw [hp]; exact htarget
+      rw [this]
+      exact hbad
+    | ok => rw [hout] at hspec; exact hspec.elim
+    | err => rw [hout] at hspec; exact hspec.elim
+  · simp [Seek.total, seekChunk] at hgt
+    omega
+
+/-- **corrupted_stays_reported** (without a seek, any state). Whatever the history — also right after
+    a failed read, with `desync` raised — a read returns rows only from a page that is not corrupted,
+    and they are that page's own rows `st .. st+len-1` up to its end: never the rows of a corrupted
+    page, never rows presented under other row numbers. -/
+theorem reads_never_return_corrupted_rows (c : Chunk) (rows : List Nat) (hpos : ∀ r ∈ rows, 0 < r)
+    (hasIndex : Bool) (history : List Seek.Op) (p st len : Nat)
+    (hr : (Seek.readPage rows (seekChunk c rows).bad (reach (seekChunk c rows) hasIndex history)).2 = .page p st len) :
+    p ∉ badOf c.pages ∧ Seek.firstRow rows p ≤ st ∧ st + len = Seek.firstRow rows (p + 1) ∧
+      ∀ s, c.pages[p]? = some s → ¬ Corrupted s := by
+  have hinv := reach_inv (seekChunk c rows) hpos hasIndex history
+  have hspec := Seek.readPage_spec rows (seekChunk c rows).bad hpos _ hinv.1
+  obtain ⟨_, _, hm⟩ := hspec
+  rw [hr] at hm
+  obtain ⟨_, hnb, _, _, _, _, h1, h2⟩ := hm
+  refine ⟨hnb, h1, h2, fun s hs hc => hnb (corrupted_page_is_bad c rows p s hs hc)⟩
+
+/-- non-vacuity of both: three pages of four rows, page 1 has one bit flipped; read, read (fails),
+    retry seek into the page (fails again), a read without a seek (position undefined: rows of page 2
+    under their own numbers), seek past it (page 2 from the row sought) -/
+example :
+    let pg : Bytes := [1, 2, 3, 4]
+    let c : Chunk := { dict := none, pages := [⟨writeHeader .dataV2 pg, pg⟩, ⟨writeHeader .dataV2 pg, [1, 2, 3, 5]⟩,
+      ⟨writeHeader .dataV2 pg, pg⟩] }
+    (seekChunk c [4, 4, 4]).bad = [1] ∧
+    Seek.outs (Seek.stepFixed (seekChunk c [4, 4, 4])) (Seek.init true)
+      [.readPage, .readPage, .seek 5, .readPage, .readPage, .seek 9, .readPage] =
+      [.page 0 0 4, .corrupt, .ok, .corrupt, .page 2 9 3, .ok, .page 2 9 3] := by
+  decide +kernel
 
 /-! ## F4 (repaired by 5000be7) — regression facts about the code before the fix
 
